@@ -27,7 +27,8 @@ RULE = (
     "dependency closure of the registered contributions is registered; one case per (depth, first two letters). "
     "pair part: 26 contribution types (bodies, moving frame, 6 joints, forces/moments, force laws in both forms, "
     "Maxwell, Motor/PD/PID, contacts, rod, synthetic), each alone and every unordered pair in both registration "
-    "orders, assembled twice. A case is non-trivial if at least one of its histories ends in a state-changing "
+    "orders, assembled twice. naming part: all sequences up to depth 5 (thorough 6) over {add nameless, add named contr1..contr4, "
+    "add named x, pop:1, pop:-1, remove first nameless} on a fresh never-assembled System, one case per first letter. A case is non-trivial if at least one of its histories ends in a state-changing "
     "operation or an assemble whose evaluations were compared"
 )
 ASSUMPTIONS = [
@@ -87,6 +88,9 @@ def cases(tier, seed):
                 for j in range(nl):
                     out.append({"kind": "hist", "depth": d, "prefix": [i, j], "seed": seed, "nstates": 1, "start": st})
     hist(4)
+    # naming part: contributions WITHOUT a name attribute (actuators, user-defined ones) meeting given names of the default form
+    for i in range(len(NAME_LETTERS)):
+        out.append({"kind": "names", "first": i, "depth": 5 if tier == "quick" else 6, "seed": seed})
     if tier != "quick":
         for i in range(nl):
             for j in range(nl):
@@ -522,9 +526,74 @@ def check_pair(case):
 
 
 # ------------------------------------------------------------------------------------------------
+NAME_LETTERS = ["nameless", "contr1", "contr2", "contr3", "contr4", "x", "pop:1", "pop:-1", "remove:first_nameless"]
+
+
+class _Bare:
+    """user-defined contribution without any attribute (in particular without a name), like the actuators"""
+
+
+def check_names(case):
+    """All sequences over NAME_LETTERS up to the given depth on a fresh System (never assembled): every registered contribution has a
+    name, names are unique, and contributions_map is exactly {name: object} of the registered ones - whatever mix of defaulted and
+    given names of the default form 'contr<k>' arrives."""
+    import contextlib, io
+    from cardillo import System
+
+    fails, evals, states = [], 0, 0
+    L = NAME_LETTERS
+    seen_sites = set()
+    for d in range(1, case["depth"] + 1):
+        for tail in itertools.product(range(len(L)), repeat=d - 1):
+            hist = [L[case["first"]]] + [L[i] for i in tail]
+            with contextlib.redirect_stdout(io.StringIO()):
+                s = System()
+                ref = [s.origin]
+                nameless = []
+                dead = False
+                for op in hist:
+                    if op == "nameless":
+                        o = _Bare(); nameless.append(o); s.add(o); ref.append(o)
+                    elif op.startswith("contr") or op == "x":
+                        o = _Bare(); o.name = op; s.add(o); ref.append(o)
+                    elif op.startswith("pop"):
+                        k = int(op[4:])
+                        if len(ref) < 2:
+                            dead = True; break
+                        got = s.pop(k); want = ref.pop(k)
+                        if got is not want:
+                            fails.append({"site": "registry(names): pop returns another object", "msg": f"history {hist}", "data": {"history": hist}})
+                    else:
+                        live = [o for o in nameless if any(o is r for r in ref)]
+                        if not live:
+                            dead = True; break
+                        s.remove(live[0]); ref = [r for r in ref if r is not live[0]]
+            if dead:
+                continue
+            evals += 1; states += 1
+            cur = list(s.contributions)
+            names = [getattr(c, "name", None) for c in cur]
+            bad = None
+            if len(cur) != len(ref) or any(a is not b for a, b in zip(cur, ref)):
+                bad = "registry(names): contributions list != reference model"
+            elif None in names or len(set(names)) != len(names):
+                bad = "registry: names of registered contributions not unique"
+            elif any(s.contributions_map.get(n) is not c for c, n in zip(cur, names)):
+                bad = "registry: registered contribution missing from contributions_map (or mapped to another object)"
+            elif set(s.contributions_map) != set(names):
+                bad = "registry: contributions_map lists names that belong to no registered contribution (stale entry)"
+            if bad and bad not in seen_sites:
+                seen_sites.add(bad)
+                fails.append({"site": bad, "msg": f"names {names}, map {sorted(s.contributions_map)}; history {hist}", "data": {"history": hist, "names": [str(n) for n in names]}})
+    return {"fails": fails, "nontrivial": evals > 0, "evals": evals, "states": states, "transitions": states, "outcome": "names:ok" if not fails else "names:bad",
+            "stats": {"n_name_histories": evals}}
+
+
 def check(case):
     if case["kind"] == "pair":
         return check_pair(case)
+    if case["kind"] == "names":
+        return check_names(case)
     depth = case["depth"]
     prefix = list(case["prefix"])
     fails, stats = [], {}
